@@ -29,6 +29,7 @@ from nemoguardrails.colang import parse_colang_file
 from nemoguardrails.colang.runtime import Runtime
 from nemoguardrails.colang.v1_0.runtime.flows import (
     FlowConfig,
+    _normalize_flow_id,
     compute_context,
     compute_next_steps,
 )
@@ -171,6 +172,10 @@ class RuntimeV1_0(Runtime):
                 next_events = await self._process_start_flow(
                     events, processing_log=processing_log
                 )
+
+                # The started flow might have no next step, e.g., it waits for the user.
+                if len(next_events) == 0:
+                    next_events = [new_event_dict("Listen")]
 
             else:
                 # We need to slide all the flows based on the current event,
@@ -488,24 +493,42 @@ class RuntimeV1_0(Runtime):
         body = event["flow_body"]
         body = "define flow " + flow_id + ":\n" + indent(body, "  ")
 
-        # We parse the flow
-        parsed_data = parse_colang_file("dynamic.co", content=body)
+        try:
+            # We parse the flow
+            parsed_data = parse_colang_file("dynamic.co", content=body)
 
-        assert len(parsed_data["flows"]) == 1
-        flow = parsed_data["flows"][0]
+            assert len(parsed_data["flows"]) == 1
+            flow = parsed_data["flows"][0]
 
-        # To make sure that the flow will start now, we add a start_flow element at
-        # the beginning as well.
-        flow["elements"].insert(0, {"_type": "start_flow", "flow_id": flow_id})
+            # To make sure that the flow will start now, we add a start_flow element at
+            # the beginning as well.
+            flow["elements"].insert(0, {"_type": "start_flow", "flow_id": flow_id})
 
-        # We add the flow to the list of flows.
-        self._load_flow_config(flow)
+            # The flow can only call flows that exist.
+            for element in flow["elements"]:
+                if (
+                    element.get("_type") == "flow"
+                    and not element["flow_name"].startswith("$")
+                    and _normalize_flow_id(element["flow_name"])
+                    not in self.flow_configs
+                ):
+                    raise ValueError(f"Unknown flow `{element['flow_name']}`.")
 
-        # And we compute the next steps. The new flow should match the current event,
-        # and start.
+            # We add the flow to the list of flows.
+            self._load_flow_config(flow)
 
-        next_steps = await self._compute_next_steps(
-            events, processing_log=processing_log
-        )
+            # And we compute the next steps. The new flow should match the current event,
+            # and start.
+
+            next_steps = await self._compute_next_steps(
+                events, processing_log=processing_log
+            )
+        except Exception as e:
+            # The body of a dynamic flow is generated by the LLM and can be anything.
+            # If it cannot be parsed or started, we discard it and fall back to a
+            # general response, like the generation does for flows it cannot parse.
+            log.warning(f"Could not start the dynamic flow {flow_id}: {e}")
+            self.flow_configs.pop(flow_id, None)
+            next_steps = [new_event_dict("BotIntent", intent="general response")]
 
         return next_steps
